@@ -1,4 +1,6 @@
 //! Shared plumbing of the schema drivers: argument parsing, panic capture, summaries.
+pub mod derive_rt;
+
 use serde_json::{json, Map, Value};
 use std::any::Any;
 use std::collections::BTreeMap;
